@@ -270,7 +270,7 @@ fn mk_time(t: (u8, u8, u8)) -> Time {
     Time::try_new(t.0, t.1, t.2, 0).expect("valid time")
 }
 
-#[derive(Clone, Debug, PartialEq)]
+#[derive(Clone, Copy, Debug, PartialEq)]
 enum Val {
     Num(usize),
     Date(usize),
@@ -836,6 +836,233 @@ fn run_macro(ctx: &mut Ctx) -> bool {
         }
     }
     complete
+}
+
+// ------------------------------------------------------------------------------------------------
+// engine `reactive`: the context-taking macros on a live context whose locale is switched
+//
+// A history creates views with `t_format!` / `tu_format!` / `t!` (kept and rendered again later) and
+// "evaluate now" observers with `t_format_string!` / `t_format_display!` / `t_string!`, interleaved
+// with `set_locale`. After every step every live view and observer must show the ICU4X formatting for
+// the locale the context has *now* ("the locale being rendered"), whatever it was at creation time.
+
+use leptos_i18n::context::{init_i18n_context_with_options, CookieOptions, I18nContextOptions, UseLocalesOptions};
+use leptos_i18n::formatting::{t_format, t_format_display, t_format_string, tu_format};
+use leptos_i18n::{t, t_string, I18nContext};
+
+type Observer = Box<dyn Fn() -> String>;
+
+struct Maker {
+    label: &'static str,
+    opts: Opts,
+    /// html-escaped output expected (views) or plain (strings)
+    is_view: bool,
+    make: fn(I18nContext<Locale>, Val) -> Observer,
+}
+
+macro_rules! rarg {
+    (val, $x:ident) => {
+        $x
+    };
+    (by_ref, $x:ident) => {
+        &$x
+    };
+}
+
+macro_rules! rv {
+    ($out:ident, $opts:expr, $conv:ident, $mode:ident, $($fmt:tt)*) => {
+        $out.push(Maker {
+            label: concat!("t_format!(i18n, v, formatter: ", stringify!($($fmt)*), ") kept and rendered again"),
+            opts: $opts,
+            is_view: true,
+            make: |i18n, v| {
+                let view = t_format!(i18n, move || $conv(&v), formatter: $($fmt)*);
+                Box::new(move || render_view(view.clone()))
+            },
+        });
+        $out.push(Maker {
+            label: concat!("tu_format!(i18n, v, formatter: ", stringify!($($fmt)*), ") kept and rendered again"),
+            opts: $opts,
+            is_view: true,
+            make: |i18n, v| {
+                let view = tu_format!(i18n, move || $conv(&v), formatter: $($fmt)*);
+                Box::new(move || render_view(view.clone()))
+            },
+        });
+        $out.push(Maker {
+            label: concat!("t_format_string!(i18n, v, formatter: ", stringify!($($fmt)*), ") evaluated at each observation"),
+            opts: $opts,
+            is_view: false,
+            make: |i18n, v| Box::new(move || { let x = $conv(&v); t_format_string!(i18n, rarg!($mode, x), formatter: $($fmt)*) }),
+        });
+        $out.push(Maker {
+            label: concat!("t_format_display!(i18n, v, formatter: ", stringify!($($fmt)*), ") evaluated at each observation"),
+            opts: $opts,
+            is_view: false,
+            make: |i18n, v| Box::new(move || { let x = $conv(&v); t_format_display!(i18n, rarg!($mode, x), formatter: $($fmt)*).to_string() }),
+        });
+    };
+}
+
+macro_rules! rk {
+    ($out:ident, $opts:expr, $conv:ident, $key:ident) => {
+        $out.push(Maker {
+            label: concat!("t!(i18n, ", stringify!($key), ", v = ..) kept and rendered again"),
+            opts: $opts,
+            is_view: true,
+            make: |i18n, v| {
+                let view = t!(i18n, $key, v = move || $conv(&v));
+                Box::new(move || render_view(view.clone()))
+            },
+        });
+        $out.push(Maker {
+            label: concat!("t_string!(i18n, ", stringify!($key), ", v = ..) evaluated at each observation"),
+            opts: $opts,
+            is_view: false,
+            make: |i18n, v| Box::new(move || t_string!(i18n, $key, v = $conv(&v)).to_string()),
+        });
+    };
+}
+
+fn reactive_makers() -> Vec<Maker> {
+    let mut o: Vec<Maker> = vec![];
+    rv!(o, Opts::Number { gs: D_GS }, val_num, val, number);
+    rv!(o, Opts::Number { gs: 2 }, val_num, val, number(grouping_strategy: always));
+    rv!(o, Opts::Currency { width: 1, code: 1 }, val_num, val, currency(width: narrow; currency_code: EUR));
+    rv!(o, Opts::Date { len: 0 }, val_date, by_ref, date(date_length: full));
+    rv!(o, Opts::Time { len: 2 }, val_time, by_ref, time(time_length: medium));
+    rv!(o, Opts::DateTime { date: 1, time: 3 }, val_datetime, by_ref, datetime(date_length: long; time_length: short));
+    rv!(o, Opts::List { ty: 0, style: 1 }, val_list, val, list(list_type: and; list_style: short));
+    rk!(o, Opts::Number { gs: 2 }, val_num, n_always);
+    rk!(o, Opts::Currency { width: 1, code: 1 }, val_num, c_narrow_eur);
+    rk!(o, Opts::Date { len: 0 }, val_date, d_full);
+    rk!(o, Opts::DateTime { date: 1, time: 2 }, val_datetime, dt_long_medium);
+    rk!(o, Opts::List { ty: 1, style: 1 }, val_list, l_or_short);
+    o
+}
+
+#[derive(Clone, Debug)]
+enum ROp {
+    Make { maker: usize, val: Val },
+    Set { locale: usize },
+    Drop { slot: usize },
+}
+
+fn gen_reactive(t: &mut Tape, makers: &[Maker]) -> Vec<ROp> {
+    let n = t.range(3, 14);
+    let mut ops = vec![];
+    for _ in 0..n {
+        match t.weighted(&[4, 5, 1]) {
+            0 => {
+                let maker = t.pick(makers.len());
+                let vals = values_for(&makers[maker].opts);
+                // an empty list renders as one space in views: keep the value axis to non-empty outputs here
+                let vals: Vec<Val> = vals.into_iter().filter(|v| !matches!(v, Val::List(0))).collect();
+                let val = vals[t.pick(vals.len())].clone();
+                ops.push(ROp::Make { maker, val });
+            }
+            1 => ops.push(ROp::Set { locale: t.pick(LOCALES.len()) }),
+            _ => ops.push(ROp::Drop { slot: t.pick(8) }),
+        }
+    }
+    ops
+}
+
+fn reactive_case(t: &mut Tape) -> CaseResult {
+    let makers = reactive_makers();
+    let ops = gen_reactive(t, &makers);
+    let history: Vec<Value> = ops
+        .iter()
+        .map(|o| match o {
+            ROp::Make { maker, val } => json!({"make": makers[*maker].label, "value": step_json(&Step { opts: makers[*maker].opts.clone(), locale: 0, val: val.clone(), flavour: 0 })["value"]}),
+            ROp::Set { locale } => json!({"set_locale": LOCALES[*locale].as_str()}),
+            ROp::Drop { slot } => json!({"drop_view_slot": slot}),
+        })
+        .collect();
+    let owner = Owner::new();
+    let mut switches_with_live = 0u64;
+    let mut observations = 0u64;
+    let mut kinds: BTreeSet<String> = BTreeSet::new();
+    let result: Result<(), Failure> = owner.with(|| {
+        let opts = I18nContextOptions::<Locale>::default()
+            .cookie_options(CookieOptions::<Locale>::default().ssr_cookies_header_getter(|| None).ssr_set_cookie(|_: &_| {}).on_error(std::sync::Arc::new(|_| {})))
+            .ssr_lang_header_getter(UseLocalesOptions::default().ssr_lang_header_getter(|| None));
+        let i18n = init_i18n_context_with_options(opts);
+        crate::exec::tick();
+        // (maker index, value, locale index at creation, observer)
+        let mut live: Vec<(usize, Val, usize, Observer)> = vec![];
+        let mut current = LOCALES.iter().position(|l| *l == i18n.get_locale_untracked()).unwrap_or(0);
+        for (step, op) in ops.iter().enumerate() {
+            match op {
+                ROp::Make { maker, val } => {
+                    let m = &makers[*maker];
+                    let obs = catch_unwind(AssertUnwindSafe(|| (m.make)(i18n, val.clone())));
+                    match obs {
+                        Ok(o) => {
+                            if live.len() >= 8 {
+                                let _ = live.remove(0);
+                            }
+                            live.push((*maker, val.clone(), current, o));
+                        }
+                        Err(e) => {
+                            return Err(Failure { signature: format!("reactive-panics:{}", m.opts.kind()), detail: json!({"history": history, "step": step, "panic": panic_msg(e)}) });
+                        }
+                    }
+                }
+                ROp::Set { locale } => {
+                    i18n.set_locale(LOCALES[*locale]);
+                    crate::exec::tick();
+                    if *locale != current && !live.is_empty() {
+                        switches_with_live += 1;
+                    }
+                    current = *locale;
+                }
+                ROp::Drop { slot } => {
+                    if !live.is_empty() {
+                        let i = slot % live.len();
+                        let _ = live.remove(i);
+                    }
+                }
+            }
+            // every live view / observer shows the formatting for the current locale
+            for (mi, val, made_at, obs) in &live {
+                let m = &makers[*mi];
+                let s = Step { opts: m.opts.clone(), locale: current, val: val.clone(), flavour: if m.is_view { 2 } else { 0 } };
+                let expected = icu_expected(&s).map(|e| if m.is_view { html_escape(&e) } else { e });
+                let actual = catch_unwind(AssertUnwindSafe(|| obs())).map_err(panic_msg).map(|a| if m.is_view { a.replace("<!>", "").replace("<!---->", "") } else { a });
+                observations += 1;
+                kinds.insert(format!("reactive:{}", if m.is_view { "kept-view" } else { "evaluated-now" }));
+                let same = matches!((&expected, &actual), (Ok(e), Ok(a)) if e == a);
+                if !same {
+                    let stale = *made_at != current;
+                    return Err(Failure {
+                        signature: format!("reactive-format-differs-from-icu:{}:{}", if m.is_view { "kept-view" } else { "evaluated-now" }, if stale { "after-locale-switch" } else { "same-locale" }),
+                        detail: json!({
+                            "history": history, "failing_after_step": step, "observer": m.label, "model_options": m.opts.describe(),
+                            "locale_at_creation": LOCALES[*made_at].as_str(), "locale_now (the locale being rendered)": LOCALES[current].as_str(),
+                            "value": step_json(&s)["value"],
+                            "expected (fresh ICU4X formatter for the current locale)": expected.unwrap_or_else(|e| format!("<error: {e}>")),
+                            "actual": actual.unwrap_or_else(|e| format!("<panic: {e}>")),
+                        }),
+                    });
+                }
+            }
+        }
+        Ok(())
+    });
+    crate::exec::clear();
+    drop(owner);
+    crate::exec::clear();
+    match result {
+        Err(f) => Err(f),
+        Ok(()) => Ok(CaseInfo {
+            hash: hash_str(&format!("{history:?}")),
+            nontrivial: switches_with_live >= 1,
+            classes: kinds.into_iter().chain(std::iter::once(format!("reactive:locale-switches-with-live-views:{}", switches_with_live.min(4)))).collect(),
+            sample: if switches_with_live >= 2 { Some(json!({"history": history})) } else { None },
+            observations,
+        }),
+    }
 }
 
 // ------------------------------------------------------------------------------------------------
@@ -1588,6 +1815,10 @@ pub fn run(mut ctx: Ctx) -> ! {
             "documented-options" => {
                 run_documented_options(&mut ctx);
             }
+            "reactive" => {
+                crate::exec::init();
+                ctx.replay_tape("reactive", &path, reactive_case);
+            }
             other => ctx.harness_error(format!("replay file names unknown engine {other:?}")),
         }
     } else {
@@ -1606,6 +1837,10 @@ pub fn run(mut ctx: Ctx) -> ! {
                 "documented-options": "the 4 documented combinations ICU4X 1.5 cannot build (time / datetime x time_length full / long) x 2 locales: a panic is reported as documented-option-panics:*",
             }),
         );
+        // live context, locale switches between creating and rendering views
+        crate::exec::init();
+        let cases = ctx.tier.scale(1_500, 30_000);
+        ctx.run_tapes("reactive", cases, 120, reactive_case);
         let cases = ctx.tier.scale(800, 12_000);
         ctx.run_tapes("seq", cases, 300, |t| seq_in_child(t, false));
         // histories that contain a call ICU4X cannot build (documented `time_length: full|long`)
